@@ -9,6 +9,7 @@ CONSTANTS
   Dev_AdoptAckVerbatim = FALSE
   Dev_ServerIgnoresHello = TRUE
   Dev_ServerZeroIsLimit = FALSE
+  Dev_AbortLeaksChunks = FALSE
   Dev_NoSendLimit = FALSE
   Emit = FALSE
 INIT Init
